@@ -51,5 +51,27 @@ n = len(rows)
 c = sum(1 for r in rows if '**caught**' in r)
 out.append('')
 out.append('%d seeded changes, %d caught by at least one check, %d missed (all misses are in code section 4 lists as not covered).' % (n, c, n - c))
+# harmless edits: every check must stay at exit 0 (exit 2 = undecided is tolerated, exit 1 would be a false alarm)
+hd = os.path.join(SD, 'harmless')
+hrows = []
+for fn in ('eval.json', 'eval_agents.json'):
+    fp = os.path.join(hd, fn)
+    if not os.path.exists(fp):
+        continue
+    for patch, res in sorted(json.load(open(fp)).items()):
+        title = ''
+        mp = os.path.join(hd, patch.replace('.diff', '.meta.json'))
+        if os.path.exists(mp):
+            title = json.load(open(mp)).get('title', '')
+        ex = {p: c['exit'] for p, c in res.items()}
+        und = []
+        for p, c in res.items():
+            if c['exit'] == 2:
+                und.append('%s: %s' % (p, '; '.join(re.sub(r'UNDECIDED property=\S+ obligation=(\S+):.*', r'\1', l) for l in c['lines'] if l.startswith('UNDECIDED'))[:90]))
+        hrows.append('| %s | %s | %s | %s | %s |' % (patch, title.replace('|', '/')[:90], ' '.join('%s=%d' % kv for kv in sorted(ex.items())),
+                                                 'none' if not any(v == 1 for v in ex.values()) else '**FALSE ALARM**', '; '.join(und)))
+if hrows:
+    out += ['', '## Harmless edits (the property still holds; an exit 1 would be a false alarm)', '',
+            '| patch | what | exit code per check | false alarm | undecided obligations (exit 2) |', '|---|---|---|---|---|'] + hrows
 open(os.path.join(SD, 'RESULTS.md'), 'w').write('\n'.join(out) + '\n')
 print('\n'.join(out))
